@@ -229,9 +229,10 @@ def rule_E3(run_, pkg, an):
     n = 0
     for cname in pkg.subclasses("BasePose", strict=False):
         for m in ops:
-            fn = pkg.own_method(cname, m)
-            if fn is None:
+            k_ = pkg.lookup(cname, m)          # the method that instances of this class really run (own or inherited)
+            if k_ is None or k_[0] not in ("method", "prop"):
                 continue
+            fn = k_[1][0] if k_[0] == "method" else k_[1]
             body = [s for s in fn.body if not (isinstance(s, ast.Expr) and isinstance(s.value, ast.Constant))]
             if len(body) == 1 and isinstance(body[0], ast.Raise):
                 continue  # abstract placeholder
